@@ -1,7 +1,80 @@
-"""C11 - decided on the ParseArgs model; see parsecheck.CONFIG["C11"]."""
+"""C11 - decided on the ParseArgs model (parsecheck.CONFIG["C11"]) plus an implementation-only reference oracle for integers."""
+from .. import lib
 from . import parsecheck
+
+DIGITS = "0123456789abcdefghijklmnopqrstuvwxyz"
+RANGES = {"int8": (-2 ** 7, 2 ** 7 - 1), "int16": (-2 ** 15, 2 ** 15 - 1), "int32": (-2 ** 31, 2 ** 31 - 1), "int64": (-2 ** 63, 2 ** 63 - 1),
+          "int": (-2 ** 63, 2 ** 63 - 1), "uint8": (0, 2 ** 8 - 1), "uint16": (0, 2 ** 16 - 1), "uint32": (0, 2 ** 32 - 1),
+          "uint64": (0, 2 ** 64 - 1), "uint": (0, 2 ** 64 - 1)}
+
+
+def reference(text, kind, base):
+    """None (rejected) or the integer the text denotes in the base, if it lies in the kind's range.  Only explicit bases 2..36 and
+    texts of the form [+-]digits are judged (no prefixes, no underscores): exactly the textbook positional reading."""
+    t = text
+    neg = False
+    if t[:1] in ("+", "-"):
+        if kind.startswith("u"):
+            return None
+        neg = t[0] == "-"
+        t = t[1:]
+    if not t:
+        return None
+    n = 0
+    for ch in t.lower():
+        d = DIGITS.find(ch)
+        if d < 0 or d >= base:
+            return None
+        n = n * base + d
+    if neg: n = -n
+    lo, hi = RANGES[kind]
+    return n if lo <= n <= hi else None
+
+
+def integer_reference_stream(rep, rng, n):
+    """convert() of go-flags (through the hook) against the positional-value reference: accepted iff in range, stored exactly"""
+    cases = []
+    for _ in range(n):
+        kind = rng.choice(sorted(RANGES))
+        base = rng.choice([10, 10, 10, 2, 8, 16, 36, 7, 3, 35])
+        lo, hi = RANGES[kind]
+        x = rng.random()
+        if x < 0.45: v = rng.choice([lo, hi, lo - 1, hi + 1, lo + 1, hi - 1, 0, -1, 1, hi * 2, 2 ** 64, -2 ** 63 - 1])
+        elif x < 0.8: v = rng.randint(lo - 3, hi + 3) if rng.random() < 0.5 else rng.randint(-300, 300)
+        else: v = rng.randint(-2 ** 70, 2 ** 70)
+        digits = ""
+        a = abs(v)
+        while True:
+            digits = DIGITS[a % base] + digits
+            a //= base
+            if a == 0: break
+        if rng.random() < 0.3: digits = digits.upper()
+        if rng.random() < 0.15: digits = "0" * rng.randint(1, 3) + digits
+        text = ("-" if v < 0 else ("+" if rng.random() < 0.1 else "")) + digits
+        if rng.random() < 0.06:
+            text = rng.choice([text + "z", "", "-", "+", text + " ", " " + text, text.replace(digits[:1], "", 1)])
+        cases.append((text, kind, base))
+    go = lib.go_unit([{"fn": "convert", "s": [t.encode(), k.encode(), b'base:"%d"' % b]} for t, k, b in cases])
+    for (t, k, b), g in zip(cases, go):
+        if any(c not in "+-" + DIGITS + DIGITS.upper() for c in t):
+            continue        # outside the reference's domain
+        want = reference(t, k, b)
+        rep.count(("c11ref", t, k, b), nontrivial=True)
+        got = None if g == "ERR" else int(g[4:]) if g.startswith("OK:i") else "?"
+        if got != want:
+            rep.violation("C11: convert(%r) into %s in base %d gives %s, the text denotes %s" % (
+                              t, k, b, "an error" if got is None else got, "no %s" % k if want is None else want),
+                          {"kind": "property-oracle", "property": "C11", "text": t, "type": k, "base": b, "impl": g, "expected": want,
+                           "replay": "echo '{\"fn\":\"convert\",\"s\":[%s,%s,%s]}' | build/harness.bin unit" % (
+                               lib.json.dumps(t), lib.json.dumps(k), lib.json.dumps('base:"%d"' % b))})
+            return False
+        rep.cov["traces_validated_against_impl"] += 1
+    return True
 
 
 def run(rep, tier, rng, replay=None):
-    rep.cov["rule"] = parsecheck.rule_text("C11")
-    parsecheck.run_property(rep, rng, "C11", tier, replay)
+    rep.cov["rule"] = parsecheck.rule_text("C11") + ("; plus an integer reference stream: convert() of go-flags through the hook on texts at and around the "
+                                                     "limits of every integer kind in bases 2..36 against the positional-value reading (accepted iff in range, "
+                                                     "stored exactly)")
+    parsecheck.run_property(rep, rng, "C11", tier, replay,
+                            extra_streams=None if replay else [lambda rep, rng, tier: integer_reference_stream(rep, rng, 1500 if tier == "quick" else 60000)])
